@@ -77,13 +77,13 @@ traces, nsnaps, events, samples, selftest = 0, 0, 0, [], None
 for i in range(runs):
     life = os.path.join(core.BUILD, 'out', 'c19-life-%d-%d.ndjson' % (os.getpid(), i))
     vis = os.path.join(core.BUILD, 'out', 'c19-vis-%d-%d.ndjson' % (os.getpid(), i))
-    cfg = dict(lifecycle=life, visibility=vis, millis=3500 if c.quick else 10000, writers=rnd.choice([2, 3]), readers=1, batchRows=rnd.choice([1, 2]), snapshots=True)
+    cfg = dict(lifecycle=life, visibility=vis, millis=2500 if c.quick else 8000, writers=rnd.choice([2, 3]), readers=1, batchRows=rnd.choice([1, 2]), snapshots=True)
     r = c.run_harness(binp, ['-mode', 'stress', '-cfg', json.dumps(cfg)], timeout=600)
     if r['inconclusive']:
         c.inconclusive('; '.join(r['inconclusive'][:3]))
     for vv in r['violations']:
         c.report(vv['signature'], vv['detail'], {'cfg': cfg, 'harness': 'eng/stress'})
-    ll = open(life).read().splitlines()
+    ll = open(life).read().splitlines()[: (8000 if c.quick else 30000)]   # a prefix of a trace is a trace
     os.remove(life); os.remove(vis)
     ends = [json.loads(x) for x in ll if '"FileSnapEnd"' in x]
     wrote = [e for e in ends if e['wrote']]
